@@ -103,7 +103,7 @@ def tasks_for(run, module, prop, quick_depth=2, thorough_depth=3, lf_quick=0, lf
                       "line_fault_depth": lf_quick if quick else lf_thorough,
                       "inits": 2 if quick else None,
                       "max_states": 1500 if quick else 6000})
-    if prop in ("C01", "C02", "C04"):
+    if prop in ("C01", "C02", "C04", "C05"):
         for rec in G.twin_records():
             tasks.append({"rec": rec, "depth": 2 if quick else 3, "module": module, "prop": prop, "tier": run.tier,
                           "line_fault_depth": lf_quick if quick else lf_thorough, "inits": 2, "max_states": 1500 if quick else 6000})
